@@ -115,7 +115,11 @@ claim("C16", "other",
       "BOUNDED (stand-in, not a proof): Len() == n and 'every key exactly once' for VisitItemsAscendBlockEx (5 block permutations) and VisitItemsRandom are decided by running the real functions for every size n in 0..48 and around 1024 and 2048 (thorough: 0..200 and around 1024, 2048, 3072, 4096) -- this found D3 (VisitItemsRandom repeats the last item when the last block is partial), repaired.",
       A_COMMON + " Why bounded: the block visits and Len thread closure state (counters, the block table) through the visit recursion via callbacks; carrying such an invariant needs a higher-order (visitor-invariant) contract that the first-order per-function contracts of this technique do not have.")
 
+claim("C11", "other",
+      "Two parts, labelled separately. PROVED (obligations) for CopyTo's building blocks: MinItem returns the least key, VisitItemsAscendEx from it hands the visitor every item exactly once in order with its value, SetItem stores exactly the handed item under its key, EvictSomeItems changes no version and no slot denotation (and evicts nothing on a read-only store), and every one of them leaves the source's versions untouched. "
+      "BOUNDED (stand-in, not a proof): CopyTo itself -- equal contents of the copy, of the re-opened copy when flushEvery > 0, compactness (the item records reachable in the copy are exactly the live items' bytes; smaller than a source holding superseded versions), source store and source file byte-for-byte untouched -- is decided by running the real CopyTo over 3108 enumerated cases (thorough: more sizes and flushEvery values): 0..3 collections (one empty), 0..8 items, overwrites, deletes, source state dirty/flushed/evicted/snapshot/re-opened/memory-only, two comparators, flushEvery in {<=0, 1, 2, 3, n, n+1, huge}.",
+      A_COMMON + " Why bounded: CopyTo's visitor IS the copy (SetItem into the destination, periodic EvictSomeItems + Flush); the visit contracts assume a neutral visitor (A9), so composing them with this visitor needs a higher-order visitor-invariant contract outside this technique's first-order per-function contracts.")
+
 for pid, why in {
-    "C11": "CopyTo not under contract yet in this round",
 }.items():
     not_yet(pid, why)
